@@ -31,6 +31,49 @@ def shards(tier, seed, scale=1.0):
         out.append({'name': 'literal-%d' % ti, 'kind': 'literal', 'tree': ti})
     for s in range(4):
         out.append({'name': 'mutate-%d' % s, 'kind': 'mutate', 'seed': seed * 1000 + 500 + s, 'n': max(5, int(n * scale / 12))})
+    out.append({'name': 'raw', 'kind': 'raw'})
+    return out
+
+
+# pattern texts that the AST cannot spell (constructs that never close, mixed with separators and brackets): the crawler splits the text
+# at separators with a scanner of its own, the matcher translates it whole - both must read it the same way
+RAW_TREE = [('d', '@(a'), ('f', '@(a/bc'), ('f', '@(a/b'), ('d', '*(x'), ('f', '*(x/a'), ('d', '[a'), ('f', '[a/b]'), ('f', '[a/b'), ('d', 'a'), ('f', 'a/b'), ('f', 'a/bc'),
+            ('d', '!(a'), ('f', '!(a/b'), ('f', 'ab'), ('d', '{a'), ('f', '{a/b}'), ('f', '@(a|b'), ('d', 'x'), ('f', 'x/[b'), ('f', 'x/@(a')]
+RAW_PATTERNS = ['@(a/[b]c', '@(a/bc', '@(a/[b]', '@(a/?c', '@(a/[b]c)', '*(x/[a]', '*(x/a', '[a/b]', '[a/b', '[a/[b]', '!(a/[b]', '!(a/b', '@(a/*', '*/[b]c', '*/[b',
+                'x/@(a', 'x/[b', '@(a|b', '@(a|[b]', '{a/b}', '@(a/[b', '?(a/[b]c', '+(a/[!x]c', '@(a/\\[b]c', '@(@(a/[b]c']
+
+
+def run_raw(desc=None):
+    out = Outcome()
+    out.exhaustive = True
+    with FC.built_tree(RAW_TREE) as (root, _r):
+        model = T.Model(root)
+        cands = []
+        for p_, isd_, _l in model.all_entries(follow=False, max_depth=4):
+            cands.append(p_)
+            if isd_:
+                cands.append(p_ + '/')
+        for text in RAW_PATTERNS:
+            for fl in (G.EXTGLOB, 0, G.EXTGLOB | G.GLOBSTAR, G.EXTGLOB | G.DOTGLOB, G.EXTGLOB | G.BRACE):
+                out.evaluations += 1
+                try:
+                    with util.watchdog(10), util.ScandirCounter(4000):
+                        res = G.glob(text, flags=fl, root_dir=root)
+                        matched = G.globfilter(cands, text, flags=fl | G.REALPATH, root_dir=root)
+                except util.HarnessBudget:
+                    continue
+                except Exception as e:
+                    out.violation({'kind': 'raw', 'pattern': text, 'flags': fl, 'problem': 'exception ' + type(e).__name__}, bucket=('raw-exc', text))
+                    continue
+                S = {W.strip_sep(W.norm_dup(r_)) for r_ in res}
+                M = {W.strip_sep(W.norm_dup(c_)) for c_ in matched}
+                if S != M:
+                    d = sorted(S ^ M)[0]
+                    out.violation({'kind': 'raw', 'pattern': text, 'flags': fl, 'name': d, 'glob_only': d in S, 'glob': sorted(S)[:8], 'matched': sorted(M)[:8],
+                                   'problem': 'glob() and globmatch(REALPATH) read a pattern text differently'}, bucket=('raw', text))
+                elif S:
+                    out.nontrivial(('raw', text, fl))
+    out.sample({'stream': 'raw', 'patterns': len(RAW_PATTERNS)})
     return out
 
 
@@ -41,6 +84,8 @@ def run_shard(desc):
         return run_mutate(desc)
     if desc['kind'] == 'literal':
         return run_literal(desc)
+    if desc['kind'] == 'raw':
+        return run_raw(desc)
     return run_diff(desc)
 
 
@@ -434,6 +479,10 @@ def run_mutate(desc):
 
 def replay(case):
     util.clear_caches()
+    if case.get('kind') == 'raw':
+        o = run_raw()
+        mine = [v[2] for v in o.violations if v[2].get('pattern') == case['pattern'] and v[2].get('flags') == case['flags']]
+        return (not mine), mine[:2]
     spec = [tuple(e) for e in case['tree']]
     pps = [A.from_json(a) for a in case['asts']]
     excl = [A.from_json(a) for a in case['excl_asts']] if case.get('excl_asts') else None
